@@ -52,6 +52,41 @@ def verify(d):
     return 0 if res['confirmed'] else 1
 
 
+def verify_harmless(d):
+    """a change that must NOT be reported with a failing input: the property tests of its demo (everything except
+    `observes_*`) pass with and without it, and the full suite passes with it"""
+    d = os.path.abspath(d)
+    wt = '/tmp/mutverify_%d' % os.getpid()
+    res = {}
+    try:
+        rc, out = sh(['git', '-C', REPO, 'worktree', 'add', '--detach', wt, 'HEAD'])
+        assert rc == 0, out
+        os.makedirs(os.path.join(wt, 'tests'), exist_ok=True)
+        shutil.copy(os.path.join(d, 'demo.rs'), os.path.join(wt, 'tests', 'demo.rs'))
+        rc, out = sh(['cargo', 'test', '--offline', '--test', 'demo', '--', '--skip', 'observes_'], cwd=wt)
+        res['property_tests_pass_without_change'] = rc == 0
+        rc, out = sh(['git', 'apply', os.path.join(d, 'patch.diff')], cwd=wt)
+        res['patch_applies'] = rc == 0
+        if rc == 0:
+            rc, out = sh(['cargo', 'test', '--offline', '--test', 'demo'], cwd=wt)
+            res['all_demo_tests_pass_with_change'] = rc == 0
+            res['demo_with_tail'] = out[-600:]
+            os.remove(os.path.join(wt, 'tests', 'demo.rs'))
+            rc, out = sh(['cargo', 'test', '--offline'], cwd=wt)
+            if rc != 0 and 'bdd_new_performance' in out:   # wall-clock test, flaky under load
+                rc, out = sh(['cargo', 'test', '--offline'], cwd=wt)
+            res['suite_passes_with_change'] = rc == 0
+            res['suite_tail'] = '\n'.join(l for l in out.split('\n') if 'test result' in l or 'FAILED' in l or 'failed' in l)[-800:]
+    finally:
+        sh(['git', '-C', REPO, 'worktree', 'remove', '--force', wt])
+        shutil.rmtree(wt, ignore_errors=True)
+    res['confirmed'] = bool(res.get('property_tests_pass_without_change') and res.get('patch_applies') and
+                            res.get('all_demo_tests_pass_with_change') and res.get('suite_passes_with_change'))
+    json.dump(res, open(os.path.join(d, 'verify.json'), 'w'), indent=1)
+    print(json.dumps({k: v for k, v in res.items() if not k.endswith('tail')}))
+    return 0 if res['confirmed'] else 1
+
+
 def run(d, ids, tier='quick'):
     d = os.path.abspath(d)
     meta = json.load(open(os.path.join(d, 'meta.json')))
@@ -117,6 +152,8 @@ def run(d, ids, tier='quick'):
 if __name__ == '__main__':
     if sys.argv[1] == 'verify':
         sys.exit(verify(sys.argv[2]))
+    if sys.argv[1] == 'verify-harmless':
+        sys.exit(verify_harmless(sys.argv[2]))
     args = sys.argv[3:]
     tier = 'quick'
     if '--tier' in args:
